@@ -650,7 +650,8 @@ func c03Report(prefix, sig, msg string, c any) {
 	switch {
 	case strings.HasSuffix(sig, "wbl-skipped-after-wal-repair"), strings.HasSuffix(sig, "repair-file-left:acked-sample-lost"),
 		strings.HasSuffix(sig, "deleted-sample-replayed-from-wal"), strings.HasSuffix(sig, "failed-open-changed-undamaged-data:cp"),
-		strings.HasPrefix(sig, "snapshot:") && strings.HasSuffix(sig, "acked-sample-lost"):
+		strings.HasPrefix(sig, "snapshot:") && strings.HasSuffix(sig, "acked-sample-lost"),
+		sig == "snapshot-restart-differs-from-wal-restart":
 		// at most 3 records per named deviation: verifh.Violation stops writing records of ANY signature after 300 calls
 		c03KFMu.Lock()
 		c03KFSeen[prefix+sig]++
@@ -968,6 +969,31 @@ func c03JudgeDirX(w []c03Step, seed int64, dir string, ackedOp int, what string,
 			// fall through to the value check
 		} else if onlyDeletedBack {
 			return "deleted-sample-replayed-from-wal", fmt.Sprintf("%s: after appending (t=%d) to the recovered database and a clean restart samples deleted by an acknowledged Delete are back:\n  %s\nexpected\n  %s", what, newT, c03Fmt(got2), c03Fmt(want)), got
+		}
+		if a != b && conc.Snapshot {
+			// does the same directory give the expected contents when it is started from the WAL instead of the chunk snapshot?
+			// (KF-C03-4: m-mapped chunks are matched to series by ref; after a WAL-replay start a re-created series lives under
+			// its oldest WAL ref, chunks written earlier carry the newer ref and chunks cut during the replay the older one; a
+			// snapshot start has no multiRef mapping for them)
+			cp := dir + "-nosnap"
+			os.RemoveAll(cp)
+			if err := cdbCopyTree(dir, cp); err == nil {
+				os.Remove(filepath.Join(cp, "lock"))
+				snaps, _ := filepath.Glob(filepath.Join(cp, "chunk_snapshot.*"))
+				for _, x := range snaps {
+					os.RemoveAll(x)
+				}
+				if dbn, err := tsdb.Open(cp, nil, nil, opts, nil); err == nil {
+					dbn.DisableCompactions()
+					gn, _, errq := c03Query(dbn)
+					dbn.Close()
+					if errq == nil && len(snaps) > 0 && c03FmtTs(gn) == b {
+						os.RemoveAll(cp)
+						return "snapshot-restart-differs-from-wal-restart", fmt.Sprintf("%s: after appending (t=%d) to the recovered database and a clean restart FROM THE CHUNK SNAPSHOT the contents are\n  %s\nexpected (and returned when the same directory is started without the snapshot)\n  %s", what, newT, c03Fmt(got2), c03Fmt(want)), got
+					}
+				}
+			}
+			os.RemoveAll(cp)
 		}
 		if a != b {
 			return "post-recovery-contents-changed", fmt.Sprintf("%s: after appending (t=%d) to the recovered database and a clean restart the contents are\n  %s\nexpected\n  %s", what, newT, c03Fmt(got2), c03Fmt(want)), got
